@@ -139,4 +139,24 @@ CHECKS = {
                 "framing of 'gzip' is a recorded known finding (pinned by an "
                 "existing unit test).",
     },
+    "C02": {
+        "engine": "E-INPUT", "level": "exploration",
+        "technique": "bounded exhaustive enumeration of ALL small label "
+                     "arrays x block sizes x dtypes vs a decoder/validator "
+                     "written from the format text",
+        "text": "Every label array over a 2-letter (quick) / 3-letter "
+                "(thorough) alphabet (incl. 2^32-1, 2^53+1, 2^64-1) for "
+                "every shape with <= 8 voxels, as 1- and 2-channel chunks, "
+                "is encoded with 12 / 27 block sizes (cubic, non-cubic, "
+                "larger than the chunk, non-dividing) for uint32 and "
+                "uint64; plus a bit-width ladder (1..65537 labels per "
+                "block, every bit width 0..32), shared tables, tables "
+                "differing above bit 32 and ramp-filled shapes up to 16^3. "
+                "Each buffer is validated and decoded by "
+                "mc/oracle/cseg_spec.py (Python ints, from the format text) "
+                "and by the package decoder; both must return the original.",
+        "note": "Trusts DESIGN.md App. A.2; chunks of at most 8 voxels for "
+                "the all-arrays part (small-scope: axis/bit-order bugs show "
+                "there).",
+    },
 }
